@@ -515,12 +515,9 @@ def orient(cmp, pred_a):
 
 
 def result_assignments(body, local=0, _seen=None):
-    """[(bb, kind, payload)] places where the (bool) result gets a value:
-       kind 'const' (payload bool) | 'expr' (payload E) — follows whole-local copies"""
-    _seen = _seen or set()
-    if local in _seen:
-        return []
-    _seen.add(local)
+    """[(bb, kind, payload)] sites where the (bool) result gets a value; the block is always the block of the
+    assignment to the result place (its path conditions are the ones that matter):
+       kind 'const' (payload bool) | 'expr' (payload E, copies resolved flow-sensitively)"""
     out = []
     live = body.live_blocks()
     eb = ExprBuilder(body)
@@ -531,11 +528,14 @@ def result_assignments(body, local=0, _seen=None):
             rv = d[3]['rv']
             if rv['k'] == 'use' and rv['op']['k'] == 'const':
                 out.append((d[1], 'const', rv['op']['c'].get('v')))
-            elif rv['k'] == 'use' and rv['op']['k'] in ('copy', 'move') and not rv['op']['pl']['p'] and \
-                    rv['op']['pl']['l'] > body.nargs:
-                out.extend(result_assignments(body, rv['op']['pl']['l'], _seen))
-            else:
-                out.append((d[1], 'expr', eb._rvalue(rv, (), 0, (d[1], d[2]))))
+                continue
+            e = eb._rvalue(rv, (), 0, (d[1], d[2]))
+            alts = e.args if e.kind == 'phi' else [e]
+            for a in alts:
+                if a.kind == 'const' and isinstance(a.const.get('v'), bool):
+                    out.append((d[1], 'const', a.const.get('v')))
+                else:
+                    out.append((d[1], 'expr', a))
         else:
             out.append((d[1], 'expr', eb._call(d[2], (), 0)))
     return out
